@@ -64,7 +64,7 @@ def build(mir, cube):
     rc = sym.bv('redirect_count', 8); maxr = sym.bv('max_redirects', 8)
     has_range, has_spr, has_attr = sym.bool('has_range'), sym.bool('has_source_phase_referrer'), sym.bool('has_attribute')
     resp = [sym.bv(f'loader_answer_{i}', 8, lt=len(RESP)) for i in range(2)]
-    parse_ok = sym.bool('parse_ok')
+    parse_ok = sym.bool('parse_ok'); answer_headers = sym.bool('answer_has_headers')
     CK_ENTRY, CK_MANIFEST, CK_LOCK = 1, 2, 3
     LR, CR, LE, PIR = en['LoadResponse'], en['CacheResponse'], en['LoadError'], en['PendingInfoResponse']
     rng = Agg([{'specifier': UrlV(BV(0, 8))}.get(f, O) for f in st['Range']])
@@ -90,7 +90,7 @@ def build(mir, cube):
     def ready(v): return EnumV(BV(0, 8), {0: Agg([v])})
     def stub_poll_load(e, c, a, g):
         r = resp[fut_idx(e, a[0])]; i = fut_idx(e, a[0])
-        module = EnumV(BV(LR.index('Module'), 8), {LR.index('Module'): Agg([Agg([BV(10 + i, 8)]), none(), UrlV(BV(0, 8)), none()])})
+        module = EnumV(BV(LR.index('Module'), 8), {LR.index('Module'): Agg([Agg([BV(10 + i, 8)]), none(), UrlV(BV(0, 8)), opt(answer_headers, Opaque('response headers'))])})
         redirect = EnumV(BV(LR.index('Redirect'), 8), {LR.index('Redirect'): Agg([UrlV(BV(1, 8))])})
         external = EnumV(BV(LR.index('External'), 8), {LR.index('External'): Agg([UrlV(BV(0, 8))])})
         some_tag = IF(EQ(r, BV(0, 8)), BV(LR.index('Module'), 8), IF(EQ(r, BV(1, 8)), BV(LR.index('Redirect'), 8), BV(LR.index('External'), 8)))
@@ -185,7 +185,7 @@ def build(mir, cube):
                 v = a[0]
                 while not isinstance(v, CoroV): v = e.load(v) if isinstance(v, Ptr) else v.f[0]
                 o = v.up[1]; F = st['ParseModuleAndSourceInfoOptions']
-                msi_parses.append((g, v.up[0], o.f[F.index('content')], uid(e, o.f[F.index('specifier')])))
+                msi_parses.append((g, v.up[0], o.f[F.index('content')], uid(e, o.f[F.index('specifier')]), o.f[F.index('maybe_headers')]))
                 return ready(EnumV(IF(parse_ok, BV(0, 8), BV(1, 8)), {0: Agg([Opaque('module source and info')]), 1: Agg([Agg([BoxV(EnumV(BV(en['ModuleErrorKind'].index('Parse'), 8), {}))])])}))
             eng.cfg['stubs'] += [
                 (re.compile(r'.*JsrPackageVersionInfo::module_info'), lambda e, c, a, g: opt(z3.BoolVal(bool(cube.get('info'))), Opaque('embedded module info'))),
@@ -292,6 +292,29 @@ def build(mir, cube):
     if jsr: real += [has_locker, z3.Not(locker_has)]
     kw = dict(ops=[Op()], world=W(), realizable=real)
     if cube.get('op_only'): return eng, W(), [], [Query('op', FALSE, **kw)]
+    if cube.get('c01'):
+        # C01 reading: a redirect answer that is followed carries the request on unchanged — attribute, asset / dynamic / root flags, one more hop, the new target
+        R = PIR.index('Redirect'); rf = okv.vars.get(R)
+        from .pmsi import variant_fields
+        vfr = variant_fields(mir, 'PendingInfoResponse')['Redirect']
+        fld_ = lambda n: rf.f[vfr.index(n)]
+        at = fld_('maybe_attribute_type')
+        class OpR:
+            # replayed through a real build: `import x from X with { type: "json" }` where the loader redirects X to a TypeScript module Y: with the attribute
+            # carried over, Y is refused as a JSON import (InvalidTypeAssertion); if it is lost on the way, Y loads as an ordinary module
+            def op_json(self, m):
+                d = Op().op_json(m); d['json_attr'] = ev(m, has_attr); d['answers'] = ['Redirect', 'Module']; return d
+            def decode(self, m):
+                kept = ev(m, at.tag) == 1
+                return {'calls': [{'cache_setting': 'Use', 'checksum': ev(m, has_ck)}], 'result': 'err:InvalidTypeAssertion' if kept else 'redirect', 'err_has_referrer': None}
+        realr = [plain_r, A(r0, 'Redirect'), z3.Not(has_ck), has_attr, rc == 0, maxr == 10, has_range, z3.Not(has_spr), z3.Not(is_root), z3.Not(was_dyn_root), z3.Not(in_dyn), parse_ok]
+        rkw = dict(ops=[OpR()], world=W(), realizable=realr)
+        c01 = [Query('no-panic', Or(g for _, g in eng.panics)),
+               Query('a-followed-redirect-carries-the-import-attribute-of-the-request', z3.And(okRedirect, at.is_variant(1) != has_attr), **(rkw if not cube['asset'] else {})),
+               Query('a-followed-redirect-carries-the-flags-one-more-hop-and-the-new-target', z3.And(okRedirect, z3.Or(fld_('is_asset') != is_asset, fld_('is_dynamic') != in_dyn, fld_('is_root') != is_root, fld_('count') != rc + 1, fld_('specifier').id != 1))),
+               Query('witness-redirect-with-attribute', z3.And(okRedirect, has_attr), expect='sat', kind='witness', **(rkw if not cube['asset'] else {}))]
+        for fname_ in sorted({f for f, _ in eng.exceeded}): c01.append(Query('unwinding:' + fname_.split('>::')[-1], Or(g for f, g in eng.exceeded if f == fname_), kind='unwind'))
+        return eng, W(), list(sym.cons), c01
     if cube.get('c03'):
         # C03 reading of the same execution: every loader / manifest / parse outcome at every await yields a definite response or error,
         # without panicking, and every error names the requested specifier (the package for a failed manifest load) with the referrer
@@ -330,8 +353,19 @@ def build(mir, cube):
         while isinstance(plp, BoxV): plp = plp.val
         pl_tok = plp.f[0].f[0] if isinstance(plp, Agg) and isinstance(plp.f[0], Agg) else None
         def parsed(content_tok, provided):
-            return Or(z3.And(pg, (ct.f[0] == content_tok) if isinstance(ct, Agg) and z3.is_bv(ct.f[0]) else z3.BoolVal(False), z3.BoolVal((not isinstance(an, Opaque)) == provided)) for pg, an, ct, sp in msi_parses)
+            return Or(z3.And(pg, (ct.f[0] == content_tok) if isinstance(ct, Agg) and z3.is_bv(ct.f[0]) else z3.BoolVal(False), z3.BoolVal((not isinstance(an, Opaque)) == provided)) for pg, an, ct, sp, hd in msi_parses)
         ok = manifest_ck_ok
+        class OpH:
+            # replayed through a real build: a jsr: import of a package with embedded module information whose file IS cached: the cache-only probe
+            # delivers UTF-16LE bytes with a `charset=utf-16le` header; the stored text is the decoding only if the headers reach the parse step
+            def op_json(self, m):
+                return {'op': 'try_load', 'source_report': True, 'headers_charset': True, 'asset': False, 'checksum_known': False, 'answers': ['Module', 'Module'], 'parse_ok': True,
+                        'in_dynamic_branch': False, 'redirect_count': 0, 'max_redirects': 10, 'route': 'jsr_specifier', 'embedded_info': True}
+            def decode(self, m):
+                kept = any(ev(m, pg) and isinstance(an, Opaque) and isinstance(hd, EnumV) and ev(m, hd.tag) == 1 for pg, an, ct, sp, hd in msi_parses)
+                # UTF-16 content decoded under its header has no original bytes to hand out (marker Changed); read as UTF-8 it is stored unchanged
+                return {'text_is_the_decoding': kept, 'original_bytes_are_the_loaded_bytes': None if kept else True}
+        hkw = dict(ops=[OpH()], world=W(), realizable=[manifest_ck_ok, A(r0, 'Module'), answer_headers, parse_ok, has_range, z3.Not(is_root), z3.Not(in_dyn), z3.Not(was_dyn_root)])
         jsr_qs += [
             Query('the-probe-is-cache-only', z3.Or(pc[0] != ok, z3.And(pc[0], pc[3] != CS.index('Only')))),
             Query('a-redirect-answer-is-rejected-as-redirect-in-package', z3.And(ok, A(r0, 'Redirect'), z3.Not(err_is('Load', 'Jsr', 'RedirectInPackage')))),
@@ -339,6 +373,8 @@ def build(mir, cube):
             Query('no-cached-copy-uses-the-embedded-information-and-defers-the-content-load-with-the-manifest-checksum',
                   z3.And(ok, A(r0, 'NotFound'), z3.Not(z3.And(parsed(99, True), z3.Or(z3.Not(parse_ok), z3.And(okModule, opt_is_some(pl) if isinstance(pl, EnumV) else z3.BoolVal(False), (pl_tok == CK_MANIFEST) if pl_tok is not None else z3.BoolVal(False))))))),
             Query('a-loader-error-on-the-probe-is-an-error-entry', z3.And(ok, z3.Or(A(r0, 'ChecksumError'), A(r0, 'OtherError')), z3.Not(err_is('Load', 'Loader')))),
+            Query('cached-content-is-parsed-with-the-headers-the-loader-delivered', z3.And(ok, A(r0, 'Module'), Or(z3.And(pg, z3.BoolVal(isinstance(an, Opaque)), (hd.is_variant(1) != answer_headers) if isinstance(hd, EnumV) else z3.BoolVal(True)) for pg, an, ct, sp, hd in msi_parses)), **hkw),
+            Query('witness-cached-content-with-headers', z3.And(ok, A(r0, 'Module'), answer_headers, okModule), expect='sat', kind='witness', **hkw),
             Query('witness-embedded-information-used', z3.And(ok, A(r0, 'NotFound'), okModule), expect='sat', kind='witness'),
             Query('witness-cached-copy-used', z3.And(ok, A(r0, 'Module'), okModule), expect='sat', kind='witness')]
         return eng, W(), list(sym.cons), jsr_qs
